@@ -5,7 +5,7 @@
    SSL error code under every SSLError subclass, socket.timeout). *)
 From Coq Require Import List ZArith Bool String.
 Import ListNotations.
-Require Import V.C25.Model V.gen.C25_Tables V.C25.Spec V.C25.Proofs V.C25.Bridge V.C25.Gram.
+Require Import V.C25.Model V.gen.C25_Tables V.C25.Spec V.C25.Proofs V.C25.Bridge V.C25.Gram V.C25.Connect.
 From Coq Require Import Permutation.
 Require V.C24.Model.
 Open Scope Z_scope.
@@ -135,6 +135,28 @@ Proof.
         (conj later_pass_sends_all (conj rx_grows single_shot_keeps_order))))).
 Qed.
 Print Assumptions gram_transient_error_never_loses_a_packet.
+
+(* THE RETURN CODE OF connect_ex (Client.accept, inherited by ClientTls; code lists EXTRACTED from
+   the source).  Every would-block class code of a non-blocking connect -- EINPROGRESS, EALREADY,
+   EAGAIN, EWOULDBLOCK, EINTR -- changes NO connection state: same socket, not connected, result
+   False; any sequence of them leaves the client as it was; any sequence of them followed by 0 or
+   EISCONN ends connected ON THE SAME SOCKET; 0 / EISCONN connect, EINVAL / ECONNREFUSED reopen, and
+   every other errno of the platform is left pending. *)
+Theorem connect_wouldblock_keeps_the_socket :
+  (forall c s, In c CONNECT_WOULDBLOCK -> connect_step s c = (s, false)) /\
+  (forall codes s, (forall c, In c codes -> In c CONNECT_WOULDBLOCK) -> connect_run s codes = s) /\
+  (forall codes s ok, accepted s = false -> (forall c, In c codes -> In c CONNECT_WOULDBLOCK) ->
+     In ok connect_ok_codes ->
+     connect_run s (codes ++ [ok])%list = {| sockid := sockid s; accepted := true |}) /\
+  (connect_class 0 = CConnected /\ connect_class EISCONN = CConnected /\
+   connect_class EINVAL = CReopened /\ connect_class ECONNREFUSED = CReopened /\
+   forallb (fun c => match connect_class c with CPending => true | _ => false end)
+           (filter (fun c => negb (memz c [0; EISCONN; EINVAL; ECONNREFUSED])) (0 :: all_errnos)) = true).
+Proof.
+  exact (conj (fun c s => wouldblock_keeps_socket c s) (conj wouldblock_run_keeps
+        (conj pending_then_connected connect_classes_as_documented))).
+Qed.
+Print Assumptions connect_wouldblock_keeps_the_socket.
 
 (* non-vacuity / documented wart: the universes are not empty, and on a TLS site an OSError whose
    errno happens to equal an SSL code is taken for that SSL condition (ENOENT = 2 = WANT_READ) *)
